@@ -3,19 +3,40 @@ package dawn
 
 import (
 	"fmt"
+	"reflect"
+	"unsafe"
 
 	"github.com/pgavlin/dawn/diff"
 	"go.starlark.net/starlark"
 )
 
-// VerifDiffEnv runs (*function).diffEnv on the given old and new environments.
-func VerifDiffEnv(oldEnv, newEnv starlark.Value) (eq bool, reason string, d diff.ValueDiff, err error, panicked string) {
+// VerifDiffEnv runs (*function).diffEnv on the given old and new environments. sameEncoding stands for the
+// two environments having the same pickled text (fields oldData/newData, set through reflection so that this
+// file also compiles against a tree that does not have them; supported reports whether they exist).
+func VerifDiffEnv(oldEnv, newEnv starlark.Value, sameEncoding bool) (eq bool, reason string, d diff.ValueDiff, err error, panicked string, supported bool) {
 	defer func() {
 		if r := recover(); r != nil {
 			panicked = fmt.Sprint(r)
 		}
 	}()
 	f := &function{oldEnv: oldEnv, newEnv: newEnv}
+	set := func(name, v string) bool {
+		fld := reflect.ValueOf(f).Elem().FieldByName(name)
+		if !fld.IsValid() || fld.Kind() != reflect.String {
+			return false
+		}
+		reflect.NewAt(fld.Type(), unsafe.Pointer(fld.UnsafeAddr())).Elem().SetString(v)
+		return true
+	}
+	supported = true
+	if sameEncoding {
+		supported = set("oldData", "same") && set("newData", "same")
+	} else if set("oldData", "old") {
+		set("newData", "new")
+	}
+	if !supported {
+		return
+	}
 	eq, reason, d, err = f.diffEnv()
 	return
 }
